@@ -579,7 +579,7 @@ func TestG6RoundTrip(t *testing.T) {
 		}
 	}
 	vk.Enumerate(t, "g6-rt", len(cases), func(i int) g6Case { return cases[i] }, checkG6RoundTrip)
-	vk.Run(t, "g6-rt", vk.Opts{Quick: 12000, Thorough: 240000, NoCrumb: true}, drawG6, checkG6RoundTrip)
+	vk.Run(t, "g6-rt", vk.Opts{Quick: 6000, Thorough: 120000, NoCrumb: true}, drawG6, checkG6RoundTrip)
 }
 
 // ---- totality ------------------------------------------------------------------
@@ -714,8 +714,8 @@ func drawG6Bytes(t *rapid.T) g6BytesCase {
 	c := g6BytesCase{Directed: rapid.Bool().Draw(t, "directed")}
 	valid := func(label string) []byte {
 		n := rapid.IntRange(0, 12).Draw(t, label+"_n")
-		if rapid.IntRange(0, 9).Draw(t, label+"_big") == 0 {
-			n = rapid.IntRange(60, 90).Draw(t, label+"_nbig")
+		if rapid.IntRange(0, 19).Draw(t, label+"_big") == 0 {
+			n = rapid.IntRange(60, 68).Draw(t, label+"_nbig")
 		}
 		form := 0
 		if rapid.IntRange(0, 3).Draw(t, label+"_nonmin") == 0 {
@@ -748,7 +748,7 @@ func drawG6Bytes(t *rapid.T) g6BytesCase {
 			c.Data[len(c.Data)-1] = last + 63
 		}
 	case 2, 3, 4: // mutated valid encoding
-		c.Data = mutate(t, valid("v"), valid("o"), 4096)
+		c.Data = mutate(t, valid("v"), valid("o"), 1024)
 	case 5, 6: // structured header corruption: claimed order vs. body length
 		n := rapid.SampledFrom(g6HotOrders).Draw(t, "order")
 		if rapid.Bool().Draw(t, "order_rand") {
@@ -767,7 +767,7 @@ func drawG6Bytes(t *rapid.T) g6BytesCase {
 		}
 		want := (nb + 5) / 6
 		l := rapid.IntRange(0, 8).Draw(t, "bodylen")
-		if want <= 2048 && rapid.Bool().Draw(t, "body_wrapped") {
+		if want <= 400 && rapid.Bool().Draw(t, "body_wrapped") {
 			l = int(want)
 		}
 		for i := 0; i < l; i++ {
@@ -805,5 +805,5 @@ func TestG6Totality(t *testing.T) {
 		}
 	}
 	vk.Enumerate(t, "g6-total", len(cases), func(i int) g6BytesCase { return cases[i] }, checkG6Bytes)
-	vk.Run(t, "g6-total", vk.Opts{Quick: 60000, Thorough: 1200000, NoCrumb: true}, drawG6Bytes, checkG6Bytes)
+	vk.Run(t, "g6-total", vk.Opts{Quick: 40000, Thorough: 800000, NoCrumb: true}, drawG6Bytes, checkG6Bytes)
 }
